@@ -44,6 +44,11 @@ def pEvent : P Event := do
     pure (.install ⟨l, lid, tm, li, lt, ci, c, d, ok⟩ f cr)
   else if t = "T" then pure .timeoutNow
   else if t = "K" then do let f ← pOrd; let cr ← pOrd; pure (.snapshot f cr)
+  else if t = "G" then do
+    let rs ← many (do
+      let id ← nat; let pe ← nat; let pt ← nat; let pg ← pBool; let ve ← pBool; let vt ← nat; let vg ← pBool
+      pure (⟨id, pe, pt, pg, ve, vt, vg⟩ : PeerResp))
+    pure (.campaign rs)
   else if t = "R" then pure .restart
   else if t = "RD" then pure .damagedRestart
   else if t = "S" then do
@@ -57,10 +62,10 @@ structure HCase where
   evs : List Event
 
 def pHCase : P HCase := do
-  kw "CF"; let m ← pBool; let rc ← pBool; let tr ← nat; let ma ← nat
+  kw "CF"; let m ← pBool; let rc ← pBool; let tr ← nat; let ma ← nat; let npv ← pBool
   kw "DU"; let d ← pDurable
   kw "EV"; let evs ← many pEvent
-  pure ⟨⟨m, rc, tr, ma⟩, d, evs⟩
+  pure ⟨⟨m, rc, tr, ma, npv⟩, d, evs⟩
 
 def pResp : P Resp := do
   let t ← tok
@@ -70,6 +75,9 @@ def pResp : P Resp := do
   else if t = "i" then do let a ← nat; let b ← pBool; let c ← pBool; pure (.install a b c)
   else if t = "t" then pure .timeoutNow
   else if t = "s" then do let a ← pBool; pure (.snap a)
+  else if t = "c" then do
+    let pre ← many nat; let vote ← many nat; let tm ← nat; let li ← nat; let lt ← nat; let tr ← pBool
+    pure (.campaigned pre vote tm li lt tr)
   else if t = "n" then pure .none
   else failure
 
